@@ -19,7 +19,7 @@ import traceback
 import z3
 
 VERIF = os.path.dirname(os.path.dirname(os.path.abspath(__file__)))
-PY = os.path.join(VERIF, ".venv", "bin", "python")
+PY = "/verif/.venv/bin/python"      # the overlay venv always lives in /verif (snapshots run from other directories)
 
 
 def load_known(pid):
@@ -94,7 +94,10 @@ class Run:
             s.add(c)
         t = time.time()
         r = str(s.check())
-        self.solver_s += time.time() - t
+        dt = time.time() - t
+        self.solver_s += dt
+        if dt > 5 and os.environ.get("VERIF_DEBUG"):
+            print(f"SLOW-QUERY {dt:.1f}s {r} tag={getattr(self, 'tag', '')}", flush=True)
         self.q[r] = self.q.get(r, 0) + 1
         return r, (s.model() if r == "sat" else None)
 
